@@ -27,11 +27,13 @@ BLOCKING = ["wait", "notify", "acquire", "get", "send_message", "handler_pending
 POINTS = ["insert_pending_answer", "is_pending_answer", "get_pending_answer", "update_msg", "pop", "is_running"]
 
 
+_PRIMS = {}          # real primitive -> stand-in, per harness run (class-level primitives are shared by all waiters)
+
+
 class HPending(BM.PendingAnswer):
     def __init__(self, msg):
-        self.recv_event = CS.HEvent()
-        self.stop_event = CS.HEvent()
-        self.msg = msg
+        BM.PendingAnswer.__init__(self, msg)          # the real constructor; whatever primitives it (or the class) holds
+        CS.standinize(self, _PRIMS)                    # are replaced by scheduler stand-ins, under whatever attribute name
     wait = CS.coroutinize(BM.PendingAnswer.wait, BLOCKING)
     notify = CS.coroutinize(BM.PendingAnswer.notify, BLOCKING)
 
@@ -125,6 +127,7 @@ def rendezvous(c: List[bool]) -> bool:
 
 
 def _run(c):
+    _PRIMS.clear()
     k = P["k"]
     app = HAppL() if P.get("lines") else HApp()
     reqs = [_mk(0xc0, 10 + i) for i in range(k)]
